@@ -15,13 +15,14 @@ func init() {
 			ID: "C01", Title: "Routing table lookups agree with a prefix-map model", Level: "other",
 			Technique:   "typed-AST guard extraction + go/cfg dominance: dummy-node gate on every route escape, exact-lookup-not-used for more-specifics, route counter tied to became-new/became-empty results",
 			DesignRef:   "DESIGN.md §4 C01",
-			Decided:     "(1) every place in package routingtable where a trie node's route escapes to a caller (append to a result, return of the node from the exact lookup) is guarded by a test that the node is not a dummy; (2) the more-specifics lookup does not obtain its subtree root from the exact-match lookup (which returns nothing for an absent prefix); (3) every change of the atomic route counter other than the empty-table insert is control-dependent on the became-new / became-empty result of the node operation it follows, and each node operation's result feeds one counter update.",
+			Decided:     "(1) every place in package routingtable where a trie node's route escapes to a caller (append to a result, return of the node from the exact lookup) is guarded by a test that the node is not a dummy; (2) the more-specifics lookup does not obtain its subtree root from the exact-match lookup (which returns nothing for an absent prefix); (3) every change of the atomic route counter other than the empty-table insert is control-dependent on the became-new / became-empty result of the node operation it follows, and each node operation's result feeds one counter update; (4) the shift/mask idioms of the net functions the trie reaches (Contains, GetSupernet, BitAtPosition, …) satisfy the width rules of C15: shift base = word width, half-word branch chosen by a guard on the very length that is shifted by.",
 			NotDecided:  "trie placement (insertBefore/newSuperNode/skip arithmetic), LPM pruning and the Contains/GetSupernet/BitAtPosition arithmetic they rest on are numerical results over 2^32/2^128 values (see C15); equality with a prefix-map model over operation histories.",
 			TrustedBase: stdTrusted,
 			Assumptions: []string{"structured control flow (no goto) in package routingtable"},
 		},
 		Run: runC01,
 		Controls: []Control{
+			{Name: "supernet-half-chosen-by-other-length", File: "net/prefix.go", Old: "\tif pfxLen > 64 {\n\t\tmask := uint64(math.MaxUint64 << (128 - pfxLen))", New: "\tif maxPfxLen > 64 {\n\t\tmask := uint64(math.MaxUint64 << (128 - pfxLen))", Expect: "bound-agrees-with-base"},
 			{Name: "lpm-drops-dummy-test", File: "routingtable/trie.go", Old: "if !n.dummy {\n\t\t*res = append(*res, n.route)\n\t}\n\tn.l.lpm(needle, res)", New: "*res = append(*res, n.route)\n\tn.l.lpm(needle, res)", Expect: "dummy-gate"},
 			{Name: "count-unconditional", File: "routingtable/table.go", Old: "if rt.root.removePath(pfx, p) {\n\t\tatomic.AddInt64(&rt.routeCount, -1)\n\t}", New: "rt.root.removePath(pfx, p)\n\tatomic.AddInt64(&rt.routeCount, -1)", Expect: "count-follows-node-result"},
 			{Name: "getlonger-via-exact-get", File: "routingtable/table.go", Old: "return rt.root.getLonger(pfx, res)", New: "return rt.root.get(pfx).dumpPfxs(res)", Expect: "longer-not-from-exact-get"},
@@ -36,6 +37,24 @@ func runC01(c *core.Ctx) {
 	if pk == nil {
 		c.Undecided("anchor", pkg, token.NoPos, "package not found")
 		return
+	}
+	// (4) the address arithmetic the trie rests on: the R-WIDTH rules of C15 on the functions of package net that the
+	// trie reaches (containment, common supernet, bit at position)
+	{
+		reach := map[*core.Fn]bool{}
+		var roots []*core.Fn
+		for _, f := range p.FuncsIn(pkg) {
+			if f.Decl.Body != nil && !isTestFn(p, f) {
+				roots = append(roots, f)
+			}
+		}
+		for _, g := range p.ReachableFns(roots...) {
+			if g.Pkg == p.Pkg("net") {
+				reach[g] = true
+			}
+		}
+		c.Floor("bound-agrees-with-base", 4)
+		shiftRules(c, func(f *core.Fn) bool { return reach[f] })
 	}
 	routeF := p.Field(pkg, "node", "route")
 	dummyF := p.Field(pkg, "node", "dummy")
